@@ -1,9 +1,123 @@
 import PyamgV.Driver.Util
-/-! Driver ops for property C08 (line protocol). Op names are prefixed `c08_`. -/
+import PyamgV.Model.C08Accel
+import PyamgV.Proofs.C08Accel
+/-! Driver ops for property C08 (line protocol). Op names are prefixed `c08_`.
+
+* `c08_tables` : the two name spaces the model assumes, `k1,k2,...;s1:0/1,...`.
+* `c08_plan <cycle> <symmetry|_> <symsm> <accel> <tol> <maxiter> <x0> <cb> <res> <ri>` : `C08.plan tables`.
+  `<accel>` is `n:<name>`, `f:pyamg`, `f:scipy1` (signature has `atol`), `f:scipy0`, `f:scipyx` (signature
+  not inspectable); flags are `0/1`.  Reply `raise;<warn>;<exception>` or
+  `run;<warn>;<preinit>;<tuple>;<call>|<call>` with `<call>` =
+  `target,style,x0,tol,rtol,atol,maxiter,precond,callback,residuals-keyword`.
+* `c08_hist <norms> <events>` : `C08.scipyHistory`; `<norms>` = residual norms of the start vector (index 0)
+  and of the vectors handed to the callback, `<events>` = `v<index>` / `s<rational>`.
+* `c08_run <the ten arguments of c08_plan> native <info> <history> <k>` / `... scipy <info> <norms> <events>` :
+  `C08.accelRun` for an accelerator that behaves as described (PyAMG convention: returns `info`, writes
+  `<history>`, hands `k` iterates to the callback; SciPy convention: as in `c08_hist`).  Reply
+  `info|_;final list|_;callback arguments` or `none` when the behaviour is not of the convention `plan` uses.
+* `c08_native <the ten arguments of c08_plan> <normb> <r0,r1,...>` : `C08.nativeSolve` (theorem
+  `honest_native`) replayed over an observed residual history with the criterion `r < tol * normb`.
+  Reply `status;history-length;callbacks;index`, `short` when the skeleton would have continued past
+  the observations, `none` when the plan does not reach a native accelerator.
+* `c08_bb <existing n|_> <existing symmetry|_> <n> <herm> <symsm> <tol> <maxiter> <x0> <verb> <res>
+  <return_solver> <shape>` : `C08.bbPlan` followed by `C08.plan tables` on the inner call. -/
 namespace PyamgV.Drv.C08
-open PyamgV PyamgV.Drv
+open PyamgV PyamgV.Drv PyamgV.C08
+
+def flag (s : String) : Bool := s = "1"
+def shB (b : Bool) : String := if b then "1" else "0"
+def optStr (s : String) : Option String := if s = "_" then none else some s
+
+def parseAccel (s : String) : Option Accel :=
+  match s.splitOn ":" with
+  | ["n", nm] => some (.name nm)
+  | ["f", "pyamg"] => some (.fn .pyamg)
+  | ["f", "scipy1"] => some (.fn (.scipy (some true)))
+  | ["f", "scipy0"] => some (.fn (.scipy (some false)))
+  | ["f", "scipyx"] => some (.fn (.scipy none))
+  | _ => none
+
+def parseReq : List String → Option Req
+  | [cyc, sym, ss, acc, tol, mx, x0, cb, res, ri] => do
+    let a ← parseAccel acc
+    some { cycle := cyc, symmetry := optStr sym, symSmoothing := flag ss, accel := a, tol := parseRat tol,
+           maxiter := int mx, x0 := flag x0, callback := flag cb, residuals := flag res, returnInfo := flag ri }
+  | _ => none
+
+def shORat : Option Rat → String
+  | some q => showRat q
+  | none => "_"
+def shTarget : Target → String
+  | .krylov s => "k:" ++ s
+  | .scipy s => "s:" ++ s
+  | .user => "u"
+def shCb : Cb → String
+  | .none => "none"
+  | .user => "user"
+  | .wrapper => "wrapper"
+def shOB : Option Bool → String
+  | none => "_"
+  | some b => shB b
+def shCall (c : Call) : String :=
+  String.intercalate "," [shTarget c.target, if c.pyamgStyle then "pyamg" else "scipy", shB c.x0, shORat c.tol,
+    shORat c.rtol, shORat c.atol, toString c.maxiter, c.precond, shCb c.callback, shOB c.residualsKw]
+def shOutcome : Outcome → String
+  | .raise w e => s!"raise;{shB w};{e}"
+  | .run w cs p t => s!"run;{shB w};{shB p};{shB t};{String.intercalate "|" (cs.map shCall)}"
+
+def parseEv (s : String) : Ev Nat Rat :=
+  match s.toList with
+  | 'v' :: r => .vec (nat (String.ofList r))
+  | 's' :: r => .scal (parseRat (String.ofList r))
+  | _ => .scal 0
 
 def handle : List String → Option String
+  | ["c08_tables"] =>
+    some (sh tables.krylov ++ ";" ++ sh (tables.scipy.map fun (n, a) => n ++ ":" ++ shB a))
+  | "c08_plan" :: args =>
+    match parseReq args with
+    | some r => some (shOutcome (plan tables r))
+    | none => some "bad-request"
+  | ["c08_hist", norms, evs] =>
+    let ns := parseRats norms
+    let es := (listOf evs).map parseEv
+    some (showRats (scipyHistory (fun i => ns.getD i 0) 0 es).toArray)
+  | ["c08_run", cyc, sym, ss, acc, tol, mx, x0, cb, res, ri, style, info, a1, a2] =>
+    match parseReq [cyc, sym, ss, acc, tol, mx, x0, cb, res, ri] with
+    | none => some "bad-request"
+    | some r =>
+      let ns := parseRats a1
+      let beh : Beh Nat Rat :=
+        if style = "native" then .native 0 (int info) ns.toList ((List.range (nat a2)).map (· + 1))
+        else .scipy 0 (int info) ((listOf a2).map parseEv)
+      match accelRun tables r (fun i => ns.getD i 0) 0 beh with
+      | none => some "none"
+      | some v =>
+        let i := match v.info with | some k => toString k | none => "_"
+        let l := match v.residuals with | some l => showRats l.toArray | none => "_"
+        let c := sh (v.userCb.map fun | .vec k => s!"v{k}" | .scal q => "s" ++ showRat q)
+        some s!"{i};{l};{c}"
+  | ["c08_native", cyc, sym, ss, acc, tol, mx, x0, cb, res, ri, normb, seq] =>
+    match parseReq [cyc, sym, ss, acc, tol, mx, x0, cb, res, ri] with
+    | none => some "bad-request"
+    | some r =>
+      let s := parseRats seq
+      let nb := parseRat normb
+      let crit : Rat → Nat → Bool := fun t i => match s[i]? with
+        | some v => decide (v < t * nb)
+        | none => false
+      match nativeSolve tables r (fun i => some (i + 1)) crit 0 with
+      | none => some "none"
+      | some o => if o.s ≥ s.size then some "short" else some s!"{o.status};{o.nres};{o.ncb};{o.s}"
+  | ["c08_bb", en, es, n, herm, ss, tol, mx, x0, verb, res, rs, shape] =>
+    let ex : Option (Nat × Option String) := if en = "_" then none else some (nat en, optStr es)
+    let r : BBReq := { existing := ex, n := nat n, hermitian := flag herm, symSmoothing := flag ss, tol := parseRat tol,
+                       maxiter := int mx, x0 := flag x0, verb := flag verb, residuals := flag res,
+                       returnSolver := flag rs, bShape := (parseNats shape).toList }
+    match bbPlan r with
+    | .raise e => some s!"raise;{e}"
+    | .run setup inner rnd shp tuple =>
+      some s!"run;{(setup.getD "_")};{shB rnd};{showNats shp.toArray};{shB tuple};{shOutcome (plan tables inner)}"
   | _ => none
 
 end PyamgV.Drv.C08
